@@ -65,8 +65,12 @@ pub fn run(o: &Opts, rng: &mut Rng) -> Sink {
         if fi > 0 { url.push('#'); url.push_str(FRAGS[fi]); }
         one(&mut sink, url, kid, rng.below(3) as usize, format!("grammar/{}/{}/{}/{}/{}/{}", if origin { 99 } else { si }, ai, pi, qi, fi, origin));
     }
+    // 1b. authority-form and other scheme-less shapes a configuration file may contain
+    for (k, u) in ["localhost:8080", "h:1", "example.com:443", "[::1]:80", "localhost", "example.com", "user@host:1", "h:1/p", "h:1?q", "//h:1/p", "h:"].iter().enumerate() {
+        one(&mut sink, u.to_string(), 7, 0, format!("authority-form/{}", k));
+    }
     // 2. short strings over a delimiter-heavy alphabet, exhaustively
-    let alpha: &[u8] = b"h:/?#@[]%a.*";
+    let alpha: &[u8] = b"h:/?#@[]%a.*1";
     let maxlen = if o.thorough { 5 } else { 3 };
     for len in 0..=maxlen {
         let total = (alpha.len() as u64).pow(len as u32);
